@@ -246,7 +246,11 @@ def check(ctx):
 def rule_not_recording(ctx, E, prov):
     root = ctx.need_fn(E, "fastrace::span::Span::root", "R4")
     if root is not None:
-        news = root.calls_re(r"^fastrace::span::Span::new$", cleanup=False)
+        from ..spanrules import span_builds
+        rb = [(g, b) for g, b, f in span_builds(E) if g.path == root.path]
+        if rb:
+            root = rb[0][0]                      # the view with the private constructor looked through
+        news = [b for _, b in rb]
         ready_true = bool_cond_edges(root, prov, lambda o: any(
             v[0] == "call" and v[1].endswith("global_collector::reporter_ready") for v in o.via), True)
         ctx.check(bool(news) and bool(ready_true) and root.guarded(news, ready_true), "R4", root.path, root.span,
@@ -271,33 +275,29 @@ def rule_not_recording(ctx, E, prov):
                   "enter_with_parent derives a span only from a recording parent (inner = Some)", "",
                   "span creation reachable with a no-op parent", extra="parent")
     n = 0
-    for g in E.fns.values():
-        if g.crate != "fastrace":
+    from ..spanrules import span_builds
+    for g, b, f in span_builds(E):
+        if "collect_token" not in f:
             continue
-        for b in g.calls_re(r"^fastrace::span::Span::new$", cleanup=False):
-            n += 1
-            t = g.term(b)
-            src = prov.of_operand(g, t["args"][0])
-            calls = [v[1] for o in src for v in o.via if v[0] == "call"]
-            singleton = False
-            rl = root_local(g, t["args"][0])[0]
-            sd = g.single_def(rl)
-            if sd is not None and sd[1] == "term" and re.search(r"convert::(Into|From)(<.*>)?>?::(into|from)$", sd[2]["callee"]) \
-                    and sd[2]["arg_tys"] and sd[2]["arg_tys"][0] == "fastrace::collector::CollectTokenItem":
-                singleton = True
-            from_scope = any(c.endswith("LocalSpanStack::current_collect_token") for c in calls)
-            nonempty = bool_cond_edges(g, prov, lambda o: any(v[0] == "call" and re.search(r"::is_empty$", v[1]) for v in o.via), False)
-            guarded = bool(nonempty) and g.guarded([b], nonempty)
-            why = "singleton token (From<CollectTokenItem>)" if singleton else \
-                "token issued by an open scope, whose stored token was issued by a recording span" if from_scope else \
-                "guarded by !token.is_empty()" if guarded else None
-            ctx.check(why is not None, "R4", g.path, g.loc(b),
-                      "Span::new receives a collect token that cannot be empty (a span without a trace must be a no-op span)",
-                      why or "",
-                      "the token handed to Span::new can be empty (origins %s): with only no-op parents a recording span is "
-                      "built whose property closures run, whose elapsed() is Some and whose local parent has no token item"
-                      % origin_strs(src, 4), extra="token")
-    ctx.floor("R4", "fastrace::span::Span::new", n, 3, "call sites of Span::new")
+        n += 1
+        tok = f["collect_token"]
+        src = prov.of_operand(g, tok)
+        calls = [v[1] for o in src for v in o.via if v[0] == "call"]
+        singleton = any(re.search(r"convert::(Into|From)(<.*>)?>?::(into|from)$", v[1]) and v[2] < len(g.blocks) and
+                        g.blocks[v[2]]["term"].get("arg_tys", [""])[0] == "fastrace::collector::CollectTokenItem" for o in src for v in o.via if v[0] == "call")
+        from_scope = any(c.endswith("LocalSpanStack::current_collect_token") for c in calls)
+        nonempty = bool_cond_edges(g, prov, lambda o: any(v[0] == "call" and re.search(r"::is_empty$", v[1]) for v in o.via), False)
+        guarded = bool(nonempty) and g.guarded([b], nonempty)
+        why = "singleton token (From<CollectTokenItem>)" if singleton else \
+            "token issued by an open scope, whose stored token was issued by a recording span" if from_scope else \
+            "guarded by !token.is_empty()" if guarded else None
+        ctx.check(why is not None, "R4", g.path, g.loc(b),
+                  "a recording span is built from a collect token that cannot be empty (a span without a trace must be a no-op span)",
+                  why or "",
+                  "the token a span is built from can be empty (origins %s): with only no-op parents a recording span is "
+                  "built whose property closures run, whose elapsed() is Some and whose local parent has no token item"
+                  % origin_strs(src, 4), extra="token")
+    ctx.floor("R4", "fastrace::span::SpanInner", n, 3, "places where a recording span is built")
     # scope tokens come from recording spans only
     lc_new = [(g, b) for g in E.fns.values() for b in g.calls_re(r"LocalCollector::new$", cleanup=False)]
     for g, b in lc_new:
